@@ -1,8 +1,67 @@
 import XmppModel.Prelude.Hex
-/-! Driver module for C05: `handle args` answers one protocol line (fields after the
-property id); `none` means the line is not understood (`!bad-op`). -/
-namespace XmppModel.Driver.C05
+import XmppModel.Prelude.Xml
+import XmppModel.Model.Encoder
+/-! Driver for C05 (see harness/c05 for the line protocol).
 
-def handle (_args : List String) : Option String := none
+    tx <entry> <ns> <from|-> <startTok|-> <toks>   -> <status> <canonical wire tokens>
+    flush <entry> <form>                           -> 1 | 0   (is the element on the connection
+                                                       when the call returns)
+    conc <n> <i0,i1,…>                             -> ok | bad   (is the observed order of
+                                                       complete blocks a permutation of the calls)
+-/
+namespace XmppModel.Driver.C05
+open XmppModel XmppModel.Xml XmppModel.Encoder
+
+def fresh : String := "ID#"
+
+def outLine (cfg : Cfg) (status : String) (ts : List Tok) : String :=
+  s!"{status} {encToks (canon cfg.ns (wireToks cfg fresh ts))}"
+
+def startOf (s : String) : Option (Name × List Attr) :=
+  match decTok s with
+  | some (.start n as) => some (n, as)
+  | _ => none
+
+def isPermOfRange (n : Nat) (l : List Nat) : Bool :=
+  l.length == n && (List.range n).all (fun i => l.count i == 1)
+
+def stanzaLine (cfg : Cfg) (k : Kind) (ts : List Tok) : String :=
+  match stanzaSendToks k fresh ts with
+  | .ok out => outLine cfg "ok" out
+  | .error .notStart => "notstart -"
+  | .error .eof => "eof -"
+  | .error .wrongKind => "wrongkind -"
+
+def handle (args : List String) : Option String :=
+  match args with
+  | ["tx", entry, ns, from_, start, toks, _form] => do
+    let fr ← if from_ == "-" then some "" else hexDecodeStr from_
+    let ts ← decToks toks
+    let cfg : Cfg := ⟨ns, fr⟩
+    match entry with
+    | "send" =>
+      match sendToks ts with
+      | .ok out => pure (outLine cfg "ok" out)
+      | .error .eof => pure "eof -"
+      | .error _ => pure "notstart -"
+    | "sendel" => do
+      let (n, as) ← startOf start
+      pure (outLine cfg "ok" (sendElementToks n as ts))
+    | "enc" => pure (outLine cfg "ok" ts)
+    | "tw" => pure (outLine cfg "ok" ts)
+    | "reply" => pure (outLine cfg "ok" ts)
+    | "encel" => do
+      let (n, as) ← startOf start
+      pure (outLine cfg "ok" (replaceOuter n as 0 ts))
+    | "iq" => pure (stanzaLine cfg .iq ts)
+    | "msg" => pure (stanzaLine cfg .message ts)
+    | "pres" => pure (stanzaLine cfg .presence ts)
+    | _ => none
+  | ["flush", entry, form] => pure (showBool (flushesAtReturn entry form))
+  | ["conc", n, order] => do
+    let n ← n.toNat?
+    let l ← mapM? (fun (s : String) => s.toNat?) (splitList order)
+    pure (if isPermOfRange n l then "ok" else "bad")
+  | _ => none
 
 end XmppModel.Driver.C05
